@@ -370,11 +370,12 @@ def f3_cases(ctx, pym, n):
             b = rng.integers(-4, 5, size=k).astype(float)
             w = rng.integers(-3, 4, size=k).astype(float)
             sA, sb, sx = pym.Signal('A', A.copy()), pym.Signal('b', b.copy()), pym.Signal('x')
-            m = pym.LinSolve([sA, sb], sx)
+            m, optlabel = modzoo.linsolve_with_options(pym, [sA, sb], sx, t // 2, A)   # rotates through every constructor option
             m.response()
-            sx.sensitivity = w.copy()
+            sx.sensitivity = modzoo.seed_in_layout(w, t // 2)                          # ... and seed memory layouts
             m.sensitivity()
             u, dA, db = sx.state, sA.sensitivity, sb.sensitivity
+            ctx.count('f3:LinSolve options ' + optlabel)
             checks.append(f'(Ql_close {tol} (mv {ql(F(A))} {ql(F(u))}) {ql(F(b))} && '
                           f'Ql_close {tol} (mv (tr {ql(F(A))} {k}) {ql(F(db))}) {ql(F(w))} && '
                           f'Qll_close {tol} (mneg (outer {ql(F(db))} {ql(F(u))})) {ql(F(dA))})')
@@ -492,13 +493,15 @@ def run(ctx):
                       dict(label=glabels[idx] if idx is not None else None, goal=goals[idx] if idx is not None else None, coqc=gerr[-1500:]))
     # (d) oracle sweep: adjoint test on every zoo entry
     rng = np.random.default_rng(ctx.seed + 2)
-    kinds = [('full', False), ('partial', False), ('full', True), ('reseed', False)]
+    kinds = [('full', False), ('partial', False), ('full', True), ('reseed', False), ('subsets', False)]
     with contextlib.redirect_stdout(io.StringIO()):
         for e in E:
             for seed_kind, dyad in kinds:
                 if dyad and e['name'] not in ('AssembleGeneral', 'AssembleStiffness', 'AssembleMass', 'AssemblePoisson'):
                     continue
                 if seed_kind == 'partial' and e['name'] not in ('SystemOfEquations', 'EigenSolve'):
+                    continue
+                if seed_kind == 'subsets' and e.get('nout', 1) < 2:      # every subset of outputs seeded, in sequences
                     continue
                 ctx.search_evaluations += 1
                 ctx.count('oracle:' + e['name'])
@@ -518,6 +521,9 @@ def run(ctx):
                     ctx.violation('impl-violates', e['name'], 'Re sum(g*v) = d/dt Re sum(w*y(x+tv))', 'zoo entry',
                                   dict(cfg=str(e['cfg']), seed_kind=r.get('seed_kind', seed_kind), dyad_seed=dyad), expected=r['fd'], got=r['an'],
                                   note=f"relative error {r['err']:.3e} > {e['tol']:.1e}")
+    # (e) interactions: pre-existing input sensitivities, shared signals / option objects, interleaved instances, memory layouts
+    import zoo_interactions
+    zoo_interactions.run_part(ctx, pym, E, 'C01', quick)
 
 
 if __name__ == '__main__':
